@@ -14,6 +14,11 @@
 //               boundaries (where the WAL calls back into the controller: CommitOffsetProvider) while writes
 //               are in flight; with rf <= 2 a trimmer round (wal.VerifDoTrim, retention 1 ms) runs every
 //               millisecond as well
+//   stream-break  the REAL follower cursor behind a replication stream that breaks inside the term with messages
+//               in flight (the last k pushed entries lost, or delivered but their acks lost), for rf 2,3,5 with
+//               the broken follower needed for the quorum.  The peer keeps its log across streams and behaves
+//               like the follower controller (refuses a non-contiguous append by failing the stream, acks a
+//               duplicate by offset).  After the cursor's own retry the un-acked window must be re-sent.
 //   apply-gate  the application of offset n is held inside the KV layer (batch.Commit) while another
 //               follower's ack for n+1 is delivered: n+1 must be observed WAITING (the tracker applies the
 //               released requests one after the other under its mutex)
@@ -33,7 +38,9 @@ import (
 	"sync/atomic"
 	"time"
 
+	"google.golang.org/grpc/codes"
 	"google.golang.org/grpc/metadata"
+	"google.golang.org/grpc/status"
 
 	"github.com/oxia-db/oxia/common/concurrent"
 	"github.com/oxia-db/oxia/common/entity"
@@ -292,12 +299,116 @@ func (f *follower) Context() context.Context     { return f.ctx }
 func (f *follower) SendMsg(any) error            { return nil }
 func (f *follower) RecvMsg(any) error            { return nil }
 
+// pfollower is a follower that outlives its replication streams: its log persists, a non-contiguous append is
+// refused (the stream fails, as follower_controller does), an entry it already holds is acknowledged again.
+type pfollower struct {
+	mu        sync.Mutex
+	log       []int64
+	streams   int // GetReplicateStream calls
+	cur       *pstream
+	blackhole int  // the next N entries pushed on the current stream are in flight when the stream breaks ...
+	dropAcks  bool // ... false: they never arrive; true: they arrive, their acks are lost
+	inFlight  int
+	refused   int
+}
+
+type pstream struct {
+	f      *pfollower
+	ctx    context.Context
+	acks   chan *proto.Ack
+	broken chan struct{}
+	once   sync.Once
+}
+
+func (s *pstream) fail() { s.once.Do(func() { close(s.broken) }) }
+
+func (s *pstream) Send(a *proto.Append) error {
+	select {
+	case <-s.broken:
+		return status.Error(codes.Unavailable, "stream broken")
+	default:
+	}
+	off := a.Entry.Offset
+	f := s.f
+	f.mu.Lock()
+	defer f.mu.Unlock()
+	last := int64(len(f.log)) - 1
+	if f.blackhole > 0 {
+		f.blackhole--
+		f.inFlight++
+		if f.dropAcks && off == last+1 {
+			f.log = append(f.log, off)
+		}
+		return nil
+	}
+	switch {
+	case off <= last:
+		s.acks <- &proto.Ack{Offset: off} // duplicate of an entry already held
+	case off == last+1:
+		f.log = append(f.log, off)
+		s.acks <- &proto.Ack{Offset: off}
+	default:
+		f.refused++ // non-contiguous: the follower fails the stream
+		s.fail()
+	}
+	return nil
+}
+
+func (s *pstream) Recv() (*proto.Ack, error) {
+	select {
+	case <-s.broken:
+		return nil, status.Error(codes.Unavailable, "stream broken")
+	default:
+	}
+	select {
+	case a := <-s.acks:
+		return a, nil
+	case <-s.broken:
+		return nil, status.Error(codes.Unavailable, "stream broken")
+	case <-s.ctx.Done():
+		return nil, s.ctx.Err()
+	}
+}
+func (s *pstream) Header() (metadata.MD, error) { return nil, nil }
+func (s *pstream) Trailer() metadata.MD         { return nil }
+func (s *pstream) CloseSend() error             { return nil }
+func (s *pstream) Context() context.Context     { return s.ctx }
+func (s *pstream) SendMsg(any) error            { return nil }
+func (s *pstream) RecvMsg(any) error            { return nil }
+
+func (f *pfollower) snapshot() (logLen, streams, inFlight, refused int, up bool) {
+	f.mu.Lock()
+	defer f.mu.Unlock()
+	up = f.cur != nil
+	if up {
+		select {
+		case <-f.cur.broken:
+			up = false
+		default:
+		}
+	}
+	return len(f.log), f.streams, f.inFlight, f.refused, up
+}
+
 type provider struct {
-	followers map[string]*follower
+	followers  map[string]*follower
+	pfollowers map[string]*pfollower
+	dead       map[string]bool // never reachable
 }
 
 func (p *provider) Close() error { return nil }
 func (p *provider) GetReplicateStream(ctx context.Context, name string, _ string, _ int64, _ int64) (proto.OxiaLogReplication_ReplicateClient, error) {
+	if p.dead[name] {
+		return nil, status.Error(codes.Unavailable, "follower down")
+	}
+	if pf := p.pfollowers[name]; pf != nil {
+		st := &pstream{f: pf, ctx: ctx, acks: make(chan *proto.Ack, 1<<16), broken: make(chan struct{})}
+		pf.mu.Lock()
+		pf.streams++
+		pf.cur = st
+		pf.mu.Unlock()
+		return st, nil
+	}
 	f := p.followers[name]
 	if f == nil {
 		return nil, errors.New("unknown follower")
@@ -328,6 +439,8 @@ type scenario struct {
 	segSize   int32   // WAL segment size (0 = 256 KiB: no rollover in a scenario)
 	valMax    int     // own put's value is padded to 100..valMax bytes (0 = the key only)
 	trim      bool    // a trimmer round every millisecond while the writes run (retention 1 ms)
+	streamBreak int   // 0 = none; k > 0: f1's stream breaks with the last k pushed entries in flight
+	dropAcks  bool    // stream-break: the entries arrive, their acks are lost (false: the entries are lost)
 	applyGate bool    // hold the application of offset puts-2 while the ack for puts-1 of the other follower is delivered
 }
 
@@ -447,10 +560,21 @@ func runScenario(o *hx.Out, sc scenario, tmpRoot string, idx int) {
 	}
 	wf := &gateFactory{inner: wal.NewWalFactory(&wal.FactoryOptions{BaseWalDir: dir + "/wal", SegmentSize: segSize,
 		Retention: retention, SyncData: sc.syncData}), g: g}
-	prov := &provider{followers: map[string]*follower{}}
+	prov := &provider{followers: map[string]*follower{}, pfollowers: map[string]*pfollower{}, dead: map[string]bool{}}
 	fmap := map[string]*proto.EntryId{}
 	for i := uint32(1); i < sc.rf; i++ {
 		n := fmt.Sprintf("f%d", i)
+		if sc.streamBreak > 0 {
+			fmap[n] = server.InvalidEntryId
+			switch {
+			case i == 1:
+				prov.pfollowers[n] = &pfollower{}
+				continue
+			case i > sc.rf/2: // only rf/2 followers are alive: the one whose stream breaks is needed for the quorum
+				prov.dead[n] = true
+				continue
+			}
+		}
 		f := &follower{name: n, acks: make(chan *proto.Ack, 1<<16), opened: make(chan struct{}), g: g, sendHold: -1, lastOut: -1,
 			ctx: context.Background(), manual: sc.applyGate || sc.ctxCancel}
 		if i == 1 && sc.earlyAck > 0 {
@@ -641,6 +765,85 @@ func runScenario(o *hx.Out, sc scenario, tmpRoot string, idx int) {
 			}
 			cancel()
 			results = append(results, r)
+		}
+	} else if sc.streamBreak > 0 {
+		pf := prov.pfollowers["f1"]
+		k := sc.streamBreak
+		warm := sc.puts - k - 1
+		mode := "the entries are lost in flight"
+		if sc.dropAcks {
+			mode = "the entries arrive, their acks are lost in flight"
+		}
+		sched := fmt.Sprintf("rf=%d, followers alive: %d (f1 among them); %d writes acknowledged; %d more writes pushed to f1, %s, the stream breaks; the cursor re-attaches in the same term",
+			sc.rf, sc.rf/2, warm, k, mode)
+		ok := true
+		for i := 0; i < warm && ok; i++ {
+			r := doWrite(cl, fmt.Sprintf("w0-%d", i))
+			results = append(results, r)
+			ok = !r.stuck && r.err == nil
+		}
+		if ok {
+			pf.mu.Lock()
+			pf.blackhole, pf.dropAcks, pf.inFlight = k, sc.dropAcks, 0
+			pf.mu.Unlock()
+			chs := make([]chan writeRes, k)
+			for j := 0; j < k; j++ {
+				key := fmt.Sprintf("w0-%d", warm+j)
+				ch := make(chan writeRes, 1)
+				chs[j] = ch
+				cl.write(context.Background(), key, concurrent.NewOnce(func(r *proto.WriteResponse) {
+					ch <- writeRes{key: key, version: r.Puts[0].Version.VersionId, sharedV: r.Puts[1].Version.VersionId,
+						sharedM: r.Puts[1].Version.ModificationsCount, status: r.Puts[0].Status}
+				}, func(err error) { ch <- writeRes{key: key, err: err} }))
+			}
+			pushed := wait(func() bool { _, _, n, _, _ := pf.snapshot(); return n >= k }, stuckTimeout)
+			_, before, _, _, _ := pf.snapshot()
+			pf.mu.Lock()
+			pf.blackhole = 0
+			st := pf.cur
+			pf.mu.Unlock()
+			if st != nil {
+				st.fail()
+			}
+			reattached := wait(func() bool { _, n, _, _, _ := pf.snapshot(); return n > before }, stuckTimeout)
+			if !pushed || !reattached {
+				o.Count("gate:stream-break-not-realised")
+			} else {
+				o.Count("gate:stream-broken-with-messages-in-flight")
+			}
+			// no further write: the re-attached cursor alone must get the window acknowledged
+			windowDeadline := time.After(stuckTimeout)
+			for j := 0; j < k; j++ {
+				select {
+				case r := <-chs[j]:
+					results = append(results, r)
+				case <-windowDeadline:
+					windowDeadline = time.After(0)
+					results = append(results, writeRes{key: fmt.Sprintf("w0-%d", warm+j), stuck: true})
+					ok = false
+				}
+			}
+			h, _, _ := cl.offsets()
+			caughtWait := stuckTimeout
+			if !ok {
+				caughtWait = 200 * time.Millisecond // the window already had its full time
+			}
+			caught := wait(func() bool { n, _, _, _, _ := pf.snapshot(); return int64(n) >= h+1 }, caughtWait)
+			if reattached && !caught {
+				n, streams, _, refused, up := pf.snapshot()
+				viol("cursor:unacked-window-not-resent", fmt.Sprintf("%s => %v later the follower holds %d entries, the leader head is %d (streams opened %d, current stream up=%v, non-contiguous appends refused by the follower: %d)",
+					sched, stuckTimeout, n, h, streams, up, refused))
+				ok = false
+			}
+			// and the term goes on
+			if ok {
+				results = append(results, doWrite(cl, fmt.Sprintf("w0-%d", warm+k)))
+			} else {
+				results = append(results, writeRes{key: fmt.Sprintf("w0-%d", warm+k), stuck: true})
+			}
+		}
+		for len(results) < total {
+			results = append(results, writeRes{key: fmt.Sprintf("w0-%d", len(results)), stuck: true})
 		}
 	} else if sc.applyGate {
 		fa, fb := prov.followers["f1"], prov.followers["f2"]
@@ -922,7 +1125,7 @@ func runScenario(o *hx.Out, sc scenario, tmpRoot string, idx int) {
 	if nerr > 0 || nstuck > 0 {
 		verdict = fmt.Sprintf("failed=%d stuck=%d", nerr, nstuck)
 	}
-	o.Case("pipe", fmt.Sprintf("%s rf=%d sync=%v writers=%d puts=%d hold=%v early=%d seg=%d valmax=%d trim=%v", sc.name, sc.rf, sc.syncData, sc.writers, sc.puts, sc.holdAt, sc.earlyAck, segSize, sc.valMax, sc.trim),
+	o.Case("pipe", fmt.Sprintf("%s rf=%d sync=%v writers=%d puts=%d hold=%v early=%d seg=%d valmax=%d trim=%v break=%d dropAcks=%v", sc.name, sc.rf, sc.syncData, sc.writers, sc.puts, sc.holdAt, sc.earlyAck, segSize, sc.valMax, sc.trim, sc.streamBreak, sc.dropAcks),
 		fmt.Sprintf("%s writes=%d wal=%d head=%d commit=%d", verdict, total, len(walOffsets), head, commit),
 		fmt.Sprintf("%s/%d/%v/%d/%d/%d", sc.name, sc.rf, sc.syncData, sc.writers, sc.puts, idx))
 
@@ -931,12 +1134,13 @@ func runScenario(o *hx.Out, sc scenario, tmpRoot string, idx int) {
 	// on a wedged controller the resources are leaked (the process ends soon), never waited for
 	cl.bounded("closing the KV factory", func() { _ = kvInner.Close() })
 	cl.bounded("closing the WAL factory", func() { _ = wf.Close() })
-	if cl.wedged.Load() {
+	if cl.wedged.Load() || nstuck > 0 {
 		wedgedScenarios[sc.name] = true
 	}
 }
 
-// scenario kinds on which the controller wedged once are not run again in the same process (each costs a watchdog timeout)
+// scenario kinds on which the controller wedged or a write got stuck (already a verdict) are not run again in the
+// same process: each such run costs several watchdog timeouts
 var wedgedScenarios = map[string]bool{}
 
 // readKey reads one key through the leader's public read path
@@ -1031,6 +1235,12 @@ func main() {
 				sc.name, sc.segSize, sc.valMax, sc.puts = "ctx-cancel-roll", 8*1024, 3000, 10+r.Intn(8)
 			}
 			run(sc)
+		}
+		// forced: the real follower cursor over a stream that breaks with messages in flight, same term
+		for _, rf := range []uint32{2, 3, 5} {
+			k := 1 + r.Intn(4)
+			run(scenario{name: fmt.Sprintf("stream-break-rf%d", rf), rf: rf, syncData: r.Bool(), writers: 1, puts: r.Intn(4) + k + 1, earlyAck: -1,
+				streamBreak: k, dropAcks: r.Bool()})
 		}
 		run(scenario{name: "apply-gate", rf: 3, syncData: r.Bool(), writers: 1, puts: 2 + r.Intn(4), earlyAck: -1, applyGate: true})
 	}
